@@ -524,7 +524,7 @@ class Interp:
             return fn.apply(self, args, kwargs)
         if isinstance(fn, ClassV):
             return self.instantiate(fn, args, kwargs)
-        if isinstance(fn, self.lib.TypeBuiltin) and fn.ctor is not None:
+        if isinstance(fn, self.lib.TypeV) and getattr(fn, 'ctor', None) is not None:
             return fn.ctor(self, *args, **kwargs)
         if isinstance(fn, Opaque):
             return self.lib.call_opaque(self, fn, '__call__', args, kwargs)
@@ -1233,13 +1233,19 @@ class Interp:
         if mode == 'iter':
             self.assume(c if not isinstance(c, bool) else c)
             measure0 = spec.decreases(self, env) if getattr(spec, 'decreases', None) else None
+            captured = spec.at_start(self, env, None) if spec.at_start else None
+            mark = len(self.path.events)
             try:
                 self.exec_block(node.body, env)
             except _Break:
                 self.path.seg[-1] = (label, 'break')
+                if spec.at_break:
+                    spec.at_break(self, env, captured, self.path.events[mark:])
                 return
             except _Continue:
                 pass
+            if spec.at_end:
+                spec.at_end(self, env, captured, self.path.events[mark:])
             if spec.inv is not None:
                 self.emit(Ev('InvCheck', label=label, when='step', formula=spec.inv(self, env)))
             if measure0 is not None:
